@@ -1647,8 +1647,9 @@ def Mandatory(cls, **_kwargs):
         kwargs['type_name'] = '%s%s%s' % (const.MANDATORY_PREFIX,
                                     cls.get_type_name(), const.MANDATORY_SUFFIX)
     kwargs.update(_kwargs)
-    if issubclass(cls, Unicode):
-        kwargs.update(dict(min_len=1))
+    if issubclass(cls, Unicode) and 'min_len' not in _kwargs:
+        # at least one character -- not fewer than what cls already demands
+        kwargs['min_len'] = max(1, cls.Attributes.min_len)
 
     retval = cls.customize(**kwargs)
 
